@@ -78,13 +78,13 @@ PROPS = {
     'C02': {
         'rules': WR_ALL + both(conf.rule_pa_conf, conf.rule_wr_order, conf.rule_pa_excl) + both(sk.rule_sk_stop, sk.rule_sk_unnest_pos, pa.rule_pa_top, pa.rule_pa_zero, pa.rule_pa_asc),
         'thorough_rules': both(sk.rule_sk_emit, conf.rule_rs_proto) + one(xp.rule_xp_verdicts, xp.rule_xp_roles),
-        'explanation': 'Decides the composition sort -> dedup -> truncate on the exhaustive configuration table of the shallow parser (1024 keyword configurations): wrapping order Top, Uniq|UniqCount, Sorted and presence iff keyword; per writer: stable ascending sort on the key only with DESC = reversal of that result, first-occurrence dedup on the immutable record image, insertion-ordered multiplicity map with count prefix, TOP refusing iff NW >= N and counting forwarded records; termination: every write() returns a boolean, every downstream verdict is propagated, a false verdict sets stop_flag, the loop tests it and inner loops break.',
+        'explanation': 'Decides the composition sort -> dedup -> truncate on the exhaustive configuration table of the shallow parser (1024 keyword configurations): wrapping order Top, Uniq|UniqCount, Sorted and presence iff keyword; per writer: stable ascending sort on the key only with DESC = reversal of that result, first-occurrence dedup on the immutable record image, insertion-ordered multiplicity map with count prefix, TOP refusing iff NW >= N and counting forwarded records; termination: every write() returns a boolean, every downstream verdict is propagated, a false verdict sets stop_flag, the loop tests it and inner loops break. The sort dominates the emission (it cannot be skipped by a test that does not use the ORDER BY comparator) and every arrival is buffered exactly once.',
         'not_decided': 'that user sort keys are mutually comparable; stability of sorted()/Array.sort (trusted language semantics).',
     },
     'C03': {
         'rules': AG_ALL + both(wr.rule_wr_aggw, sk.rule_sk_alias, sk.rule_sk_emit, conf.rule_pa_excl),
         'thorough_rules': both(sk.rule_sk_where, wr.rule_wr_prop) + one(xp.rule_xp_roles),
-        'explanation': 'Decides routing and grouping: each aggregate entry point (and every alias spelling bound in the generated prologue) registers the aggregator class of the same name, COUNT passes 1, token ids equal registration order, stage 1 installs one aggregator or constant-group verifier per output column and feeds the first record, stage 2 increments aggregator i with value i, group keys are collected in a set and emitted in ascending component-wise order, one get_final per column; constant-group verifier raises on a differing value and tests absence by membership; lower-case min/max/sum dispatch; COUNT(*) rewrite; ORDER BY/UPDATE/DISTINCT rejected.',
+        'explanation': 'Decides routing and grouping: each aggregate entry point (and every alias spelling bound in the generated prologue) registers the aggregator class of the same name, COUNT passes 1, token ids equal registration order, stage 1 installs one aggregator or constant-group verifier per output column and feeds the first record, stage 2 increments aggregator i with value i, group keys are collected in a set and emitted in ascending component-wise order, one get_final per column; constant-group verifier raises on a differing value and tests absence by membership; lower-case min/max/sum dispatch; COUNT(*) rewrite; ORDER BY/UPDATE/DISTINCT rejected. rbql-js parse_number hands back only values tested with isNaN on that path.',
         'not_decided': 'floating-point rounding of the accumulators and the order of additions (AG-FOLD decides the fold expressions up to algebraic identity over the rationals, AG-MEDIAN the even/odd selection; bit-exact results are statements about runtime values).',
     },
     'C04': {
@@ -102,7 +102,7 @@ PROPS = {
     'C06': {
         'rules': OW_ALL + both(sk.rule_sk_copy),
         'thorough_rules': both(sk.rule_sk_upd, hd.rule_hd_startwin, hd.rule_hd_except) + one(ifc.rule_if_conf),
-        'explanation': 'Decides non-destructiveness as an ownership property: an interprocedural value-origin analysis over the library modules and all composed skeletons shows that no in-place modification site can receive a source object (result of get_record()/get_header() or a declared input parameter), that every record handed to a writer is freshly allocated (so output never aliases input and writers that normalise in place are safe), and that headers reaching a header-modifying set_header are not the caller\'s; files are opened for writing only through output_path; no destructive file-system call; sqlite only ever receives SELECT with identifiers validated by an anchored pattern whose language is within [A-Za-z0-9_]* (regex inclusion by automata); the dataframe is accessed through a read-only API and rows leave as fresh lists.',
+        'explanation': 'Decides non-destructiveness as an ownership property: an interprocedural value-origin analysis over the library modules and all composed skeletons shows that no in-place modification site can receive a source object (result of get_record()/get_header() or a declared input parameter), that every record handed to a writer is freshly allocated (so output never aliases input and writers that normalise in place are safe), and that headers reaching a header-modifying set_header are not the caller\'s; files are opened for writing only through output_path; no destructive file-system call; sqlite only ever receives SELECT with identifiers validated by an anchored pattern whose language is within [A-Za-z0-9_]* (regex inclusion by automata); the dataframe is accessed through a read-only API and rows leave as fresh lists. The sqlite connection is the caller\'s: the adapter only creates cursors on it (no commit/rollback/close, no `with connection:`). The code generator embeds the stored select fragment verbatim.',
         'not_decided': 'effects of user expressions themselves (assumed not to mutate; cells are immutable strings).',
     },
     'C07': {
@@ -120,19 +120,19 @@ PROPS = {
     'C09': {
         'rules': VA_ALL + both(rd.rule_rd_hdrflag, rd.rule_rd_replay, conf.rule_pa_with, sk.rule_sk_nr, pa.rule_pa_withcase, pa.rule_pa_subst) + one(ifc.rule_if_joinopts),
         'thorough_rules': both(sk.rule_sk_eof, sk.rule_sk_vars) + one(xp.rule_rx_xp),
-        'explanation': 'Decides variable binding structure: name -> index maps are built from header positions, a.name / a["name"] / direct names store that position, the escape function doubles backslashes first and covers quote/LF/CR with the same quote character as the generated key text, the candidate filter only searches for segments the escape leaves unchanged; header line replay flag is always the negation of has_header, WITH (header/noheader) reaches both iterators before their variable maps are built; NR is counted by the engine loop. Column names are substituted into generated text only through literal (non template-interpreting) operations.',
+        'explanation': 'Decides variable binding structure: name -> index maps are built from header positions, a.name / a["name"] / direct names store that position, the escape function doubles backslashes first and covers quote/LF/CR with the same quote character as the generated key text, the candidate filter only searches for segments the escape leaves unchanged; header line replay flag is always the negation of has_header, WITH (header/noheader) reaches both iterators before their variable maps are built; NR is counted by the engine loop. Column names are substituted into generated text only through literal (non template-interpreting) operations. Join tables are read with the same reading options (delimiter, policy, encoding, header flag, comment prefix) as the input table.',
         'not_decided': 'completeness of the candidate filter for spellings of a name other than the canonical escaped one.',
     },
     'C10': {
         'rules': both(cs.rule_cs_trigger, cs.rule_cs_dispatch, cs.rule_cs_width, cs.rule_cs_writer, cs.rule_rx_field, rs.rule_fl_flags, rs.rule_fl_none_complete, rd.rule_rd_bom) + one(rd.rule_rd_jschunk) + both(cs.rule_rx_ws),
         'thorough_rules': both(cs.rule_cs_accept, cs.rule_cs_extws, cs.rule_rx_newline) + one(xp.rule_rx_xp),
-        'explanation': 'Decides necessary conditions of the round trip (stated as such): the characters that trigger quoting include every character the reader treats specially under the same policy, inner quotes are doubled (globally) and the field enclosed, reader/writer dispatch tables are total over the five policies and pair matching split/join, delimiter comparisons and position steps use the delimiter length, one separator per record, and lossy output (None, delimiter in simple output) always sets its warning flag which get_warnings reports.',
+        'explanation': 'Decides necessary conditions of the round trip (stated as such): the characters that trigger quoting include every character the reader treats specially under the same policy, inner quotes are doubled (globally) and the field enclosed, reader/writer dispatch tables are total over the five policies and pair matching split/join, delimiter comparisons and position steps use the delimiter length, one separator per record, and lossy output (None, delimiter in simple output) always sets its warning flag which get_warnings reports. On every path of CSVWriter.write() that writes a record line while the separator check is switched on, the check ran.',
         'not_decided': 'equality of the table read back for any table (a round-trip statement over all strings); encoding behaviour of io.TextIOWrapper.',
     },
     'C11': {
         'rules': CS_ALL,
         'thorough_rules': one(xp.rule_rx_xp),
-        'explanation': 'Decides the dialect pieces exactly where they are regular or structural: the quoted-field regex denotes exactly "([^"]|"")*" (DFA equivalence), greedy, group 1 = content; acceptance iff end of line or delimiter follows, otherwise the field runs to the next delimiter with the warning set; unquoted fields warn iff they contain a quote; external spaces iff delimiter is not a space; trailing delimiter -> final empty field; fast path only without quotes; whitespace regexes; policy dispatch; warning accumulation by OR.',
+        'explanation': 'Decides the dialect pieces exactly where they are regular or structural: the quoted-field regex denotes exactly "([^"]|"")*" (DFA equivalence), greedy, group 1 = content; acceptance iff end of line or delimiter follows, otherwise the field runs to the next delimiter with the warning set; unquoted fields warn iff they contain a quote; external spaces iff delimiter is not a space; trailing delimiter -> final empty field; fast path only without quotes; whitespace regexes; policy dispatch; warning accumulation by OR. An unquoted field is delimited by the next delimiter searched from the field start.',
         'not_decided': 'conformance of the composed splitter on every line (a transducer-equivalence argument outside this family).',
     },
     'C12': {
@@ -150,7 +150,7 @@ PROPS = {
     'C14': {
         'rules': both(sk.rule_sk_err, sk.rule_sk_nr, conf.rule_pa_hdrcall, conf.rule_pa_excl, hd.rule_va_index, rd.rule_rd_bom, agfold.rule_ag_fold) + one(agfold.rule_ag_parse) + FL_ALL + one(rs.rule_rs_decerr, ifc.rule_cl_exit),
         'thorough_rules': both(sk.rule_sk_eof, rd.rule_rd_bom, cs.rule_cs_accept, ag.rule_ag_const),
-        'explanation': 'Decides error/warning structure: one try covers every user fragment in every generated program; handlers never fall through (first offending record ends the query); bad field -> runtime error with index+1 and NR, bad key with the key and NR, parsing errors re-raised unchanged, anything else -> runtime error with NR; text-detectable conflicts raise the parsing class before the header is handed over and nothing can raise after it; decode faults map to the IO class; each warning flag has one neutral initialisation, set-sites only under its condition and one guarding read in get_warnings; field-count warning records the first record per count and cites the two smallest.',
+        'explanation': 'Decides error/warning structure: one try covers every user fragment in every generated program; handlers never fall through (first offending record ends the query); bad field -> runtime error with index+1 and NR, bad key with the key and NR, parsing errors re-raised unchanged, anything else -> runtime error with NR; text-detectable conflicts raise the parsing class before the header is handed over and nothing can raise after it; decode faults map to the IO class; each warning flag has one neutral initialisation, set-sites only under its condition and one guarding read in get_warnings; field-count warning records the first record per count and cites the two smallest. Non-numeric aggregate arguments raise at their record: parse_number never returns an untested value.',
         'not_decided': '"iff the condition occurred" for conditions defined over string contents (e.g. exactness of the delimiter-count heuristic).',
     },
     'C15': {
